@@ -9,8 +9,9 @@ therefore either ends in such a state again, or fails with a content-handler err
 site, or at one of the dispatcher's own slice checks (`DispOwn`, excluded by C15 for the lexemes the lexer
 really produces). The site `rBase` is eliminated (`to_token` builds `src = prev_consumed + raw`).
 
-NOT proved (stated precisely at the end): the lifting of this operation-level invariant through
-`Parser.parse` / `Stream.write`, and the scanner-mode (hint) operations.
+The lifting of this operation-level invariant through `Parser.parse` / `Stream.write` is in
+`Lemmas/LexOnlyE.lean` / `Thm/Full5.lean` (round 4). NOT proved: the scanner-mode (hint) operations.
+Both operation theorems are instances of a version for any invariant kept by the events (`EvInv`).
 -/
 import LolHtml.Thm.Full3
 import LolHtml.Lemmas.FullDisp
@@ -169,6 +170,49 @@ theorem tokStartTag_not_rBase (cfg : Cfg) (s : St) (name : Bytes) (attrs : List 
 
 /-! ## `Disp.handleTag` in lexer mode -/
 
+/-- an invariant `I` of the controller state along the events of the dispatcher's calling protocol; `S` /
+`A`: what a start- / end-tag event may fail with besides a content-handler error (and `rBase`, which the
+token `to_token` builds cannot reach) -/
+structure EvInv (cfg : Cfg) (I : St → Prop) (S A : Err → Prop) : Prop where
+  fault : ∀ s, I s → s.fault = none
+  other : ∀ s tok b, I s → (CtlEv.other tok).WellKinded →
+    ((tokIf cfg b s tok).2 = none → I (tokIf cfg b s tok).1) ∧ (∀ e, (tokIf cfg b s tok).2 = some e → e = .handler)
+  start : ∀ s ln ns info nm attrs ns' sc raw src base, I s →
+    ((ctlStep cfg s (.start ln ns info (.startTag nm attrs ns' sc raw src base))).2 = none →
+      I (ctlStep cfg s (.start ln ns info (.startTag nm attrs ns' sc raw src base))).1) ∧
+    (∀ e, (ctlStep cfg s (.start ln ns info (.startTag nm attrs ns' sc raw src base))).2 = some e →
+      e = .handler ∨ S e ∨ e = .panic rBase)
+  end_ : ∀ s ln nm raw src, I s →
+    ((ctlStep cfg s (.end_ ln (.endTag nm raw src))).2 = none → I (ctlStep cfg s (.end_ ln (.endTag nm raw src))).1) ∧
+    (∀ e, (ctlStep cfg s (.end_ ln (.endTag nm raw src))).2 = some e → A e)
+
+/-- what a lexer-mode dispatcher operation may fail with, given the classes of the events -/
+def CG (S A : Err → Prop) (e : Err) : Prop := e = .handler ∨ S e ∨ A e ∨ DispOwn e
+
+/-- the post-condition of a lexer-mode dispatcher operation, for an event invariant -/
+def PostG {α : Type} (cfg : Cfg) (I : St → Prop) (C : Err → Prop) (r : DRes (FullSt cfg) α) : Prop :=
+  (∀ a, r.2 = .ok a → Idle r.1 ∧ I r.1.ctl.1) ∧ (∀ e, r.2 = .error e → C e)
+
+theorem postG_err {α : Type} {cfg : Cfg} {I : St → Prop} {C : Err → Prop} (d : Disp (FullSt cfg)) (e : Err) (h : C e) :
+    PostG cfg I C ((d, .error e) : DRes (FullSt cfg) α) := by
+  refine ⟨fun a ha => ?_, fun e' he' => ?_⟩
+  · cases ha
+  · simp only [Except.error.injEq] at he'
+    rw [← he']; exact h
+
+theorem residual_cg {S A : Err → Prop} {e : Err} (h : e = .handler ∨ S e ∨ e = .panic rBase)
+    (hnb : e ≠ .panic rBase) : CG S A e := by
+  rcases h with h | h | h
+  · exact Or.inl h
+  · exact Or.inr (Or.inl h)
+  · exact absurd h hnb
+
+/-- the last step of `handle_tag`: `emission_enabled`, next parser directive -/
+theorem handleTag_tailG {cfg : Cfg} {I : St → Prop} {C : Err → Prop} (d : Disp (FullSt cfg)) (hi : Idle d) (hI : I d.ctl.1) :
+    PostG cfg I C (({ d with emissionEnabled := (fullCtl cfg).shouldEmit d.ctl },
+      .ok ({ d with emissionEnabled := (fullCtl cfg).shouldEmit d.ctl }).nextDirective) : DRes (FullSt cfg) Directive) :=
+  ⟨fun _ _ => ⟨hi, hI⟩, fun e he => by cases he⟩
+
 /-- the post-condition of a lexer-mode dispatcher operation -/
 def Post {α : Type} (cfg : Cfg) (r : DRes (FullSt cfg) α) : Prop :=
   (∀ a, r.2 = .ok a → Idle r.1 ∧ J cfg r.1.ctl.1) ∧ (∀ e, r.2 = .error e → Allowed e)
@@ -195,28 +239,28 @@ theorem handleTag_tail {cfg : Cfg} (d : Disp (FullSt cfg)) (hi : Idle d) (hJ : J
       .ok ({ d with emissionEnabled := (fullCtl cfg).shouldEmit d.ctl }).nextDirective) : DRes (FullSt cfg) Directive) :=
   ⟨fun _ _ => ⟨hi, hJ⟩, fun e he => by cases he⟩
 
-/-- **Full_handleTag_lexer.** With the real controller, from a dispatcher state without outstanding hint
+/-- **handleTag_lexer_gen** (`Full_handleTag_lexer` for any event invariant). With the real controller, from a dispatcher state without outstanding hint
 whose controller state satisfies `J`, `handle_tag` on ANY tag lexeme either ends in such a state again or
 fails with a content-handler error, at a residual glue site (`rAttr`, `rPayload`, `rMatcher`), or at one
 of the dispatcher's own slice checks. Its controller calls are the closing chunk of an open text node and
 exactly one start- / end-tag event of `Model/FullEvents.lean`. -/
-theorem Full_handleTag_lexer (cfg : Cfg) (hb : IdsBounded (theProgram cfg) cfg.sels.length)
-    (d : Disp (FullSt cfg)) (hi : Idle d) (hJ : J cfg d.ctl.1) (input : Bytes) (lx : TagLexeme) :
-    Post cfg (Disp.handleTag (fullCtl cfg) input lx d) := by
+theorem handleTag_lexer_gen (cfg : Cfg) (I : St → Prop) (S A : Err → Prop) (hE : EvInv cfg I S A)
+    (d : Disp (FullSt cfg)) (hi : Idle d) (hJ : I d.ctl.1) (input : Bytes) (lx : TagLexeme) :
+    PostG cfg I (CG S A) (Disp.handleTag (fullCtl cfg) input lx d) := by
   unfold Disp.handleTag
   -- 1. the closing chunk of an open text node
   obtain ⟨tokF, ⟨tt, p, htokF⟩, f1, _, f3, f4⟩ := flushPendingText_full d
   have hkF : (CtlEv.other tokF).WellKinded := by rw [htokF]; trivial
-  obtain ⟨o1, o2⟩ := tokIf_other_no_panic cfg d.ctl.1 hJ tokF hkF d.textPending
+  obtain ⟨o1, o2⟩ := hE.other d.ctl.1 tokF d.textPending hJ hkF
   cases h0 : (tokIf cfg d.textPending d.ctl.1 tokF).2 with
   | some e =>
     rw [h0] at f4
     rw [DRes.bind_err _ _ e f4]
-    exact post_err _ e (Or.inl (o2 e h0))
+    exact postG_err _ e (Or.inl (o2 e h0))
   | none =>
     rw [h0] at f4
     rw [DRes.bind_ok _ _ () f4]
-    have hJ1 : J cfg (d.flushPendingText (fullCtl cfg)).1.ctl.1 := by rw [f1]; exact o1 h0
+    have hJ1 : I (d.flushPendingText (fullCtl cfg)).1.ctl.1 := by rw [f1]; exact o1 h0
     have hi1 : Idle (d.flushPendingText (fullCtl cfg)).1 := f3.idle hi
     generalize (d.flushPendingText (fullCtl cfg)).1 = d1 at hJ1 hi1 ⊢
     -- 2. `adjust_capture_flags_for_tag_lexeme`
@@ -225,7 +269,7 @@ theorem Full_handleTag_lexer (cfg : Cfg) (hb : IdsBounded (theProgram cfg) cfg.s
     | none =>
       have := adjust_noname d1 hi1.1 input lx hl
       rw [DRes.bind_err _ _ _ this]
-      exact post_err _ _ (Or.inr (Or.inr (Or.inr (Or.inr (Or.inl rfl)))))
+      exact postG_err _ _ (Or.inr (Or.inr (Or.inr (Or.inl rfl))))
     | some ln =>
       cases ho : lx.outline with
       | startTag name h ns as sc =>
@@ -237,11 +281,11 @@ theorem Full_handleTag_lexer (cfg : Cfg) (hb : IdsBounded (theProgram cfg) cfg.s
         | error e =>
           rw [hrp] at a3
           rw [DRes.bind_err _ _ e a3]
-          obtain ⟨_, c2⟩ := start_event_no_panic cfg hb d1.ctl.1 hJ1 ln ns ⟨input, as, sc⟩ [] [] ns sc [] ⟨0, 0⟩ 0
+          obtain ⟨_, c2⟩ := hE.start d1.ctl.1 ln ns ⟨input, as, sc⟩ [] [] ns sc [] ⟨0, 0⟩ 0 hJ1
           have hce : (ctlStep cfg d1.ctl.1 (.start ln ns ⟨input, as, sc⟩ (.startTag [] [] ns sc [] ⟨0, 0⟩ 0))).2 = some e := by
             simp only [ctlStep, hrp]
           have hcls := c2 e hce
-          refine post_err _ e (residual_allowed hcls ?_)
+          refine postG_err _ e (residual_cg hcls ?_)
           -- the error comes out of the start phase, which has no `rBase` site
           intro heq
           subst heq
@@ -254,7 +298,7 @@ theorem Full_handleTag_lexer (cfg : Cfg) (hb : IdsBounded (theProgram cfg) cfg.s
             subst hrp
             unfold startTag at hst
             split at hst
-            · rename_i m hm; rw [hJ1.fault] at hm; cases hm
+            · rename_i m hm; rw [(hE.fault _ hJ1)] at hm; cases hm
             · unfold startTagCore at hst
               split at hst
               · simp at hst
@@ -301,22 +345,22 @@ theorem Full_handleTag_lexer (cfg : Cfg) (hb : IdsBounded (theProgram cfg) cfg.s
           | false =>
             obtain ⟨q1, q2, q3⟩ := p1 (by rw [hf3]; exact hb1)
             rw [DRes.bind_ok _ _ () q1]
-            obtain ⟨c1, _⟩ := start_event_no_panic cfg hb d1.ctl.1 hJ1 ln ns ⟨input, as, sc⟩ [] [] ns sc [] ⟨0, 0⟩ 0
+            obtain ⟨c1, _⟩ := hE.start d1.ctl.1 ln ns ⟨input, as, sc⟩ [] [] ns sc [] ⟨0, 0⟩ 0 hJ1
             have hce : ctlStep cfg d1.ctl.1 (.start ln ns ⟨input, as, sc⟩ (.startTag [] [] ns sc [] ⟨0, 0⟩ 0)) =
                 ((startPhase d1.ctl.1 ln ns ⟨input, as, sc⟩).1, none) := by
               simp only [ctlStep, hrp, tokIf, hb1, Bool.false_eq_true, if_false]
-            have hJ3 : J cfg (d3.produceTag (fullCtl cfg) input lx).1.ctl.1 := by
+            have hJ3 : I (d3.produceTag (fullCtl cfg) input lx).1.ctl.1 := by
               rw [q2, hc3]
               have := c1 (by rw [hce])
               rw [hce] at this
               exact this
-            exact handleTag_tail _ (q3.idle hi3) hJ3
+            exact handleTag_tailG _ (q3.idle hi3) hJ3
           | true =>
             rcases p2 (by rw [hf3]; exact hb1) with ⟨e, he, hq⟩ | ⟨n, attrs, raw, q1, q2, q3⟩
             · rw [DRes.bind_err _ _ e hq]
-              exact post_err _ e (Or.inr (Or.inr (Or.inr (Or.inr he))))
-            · obtain ⟨c1, c2⟩ := start_event_no_panic cfg hb d1.ctl.1 hJ1 ln ns ⟨input, as, sc⟩ n attrs ns sc raw
-                (srcOf lx.prevConsumed lx.raw) lx.prevConsumed
+              exact postG_err _ e (Or.inr (Or.inr (Or.inr he)))
+            · obtain ⟨c1, c2⟩ := hE.start d1.ctl.1 ln ns ⟨input, as, sc⟩ n attrs ns sc raw
+                (srcOf lx.prevConsumed lx.raw) lx.prevConsumed hJ1
               have hce : ctlStep cfg d1.ctl.1 (.start ln ns ⟨input, as, sc⟩
                     (.startTag n attrs ns sc raw (srcOf lx.prevConsumed lx.raw) lx.prevConsumed)) =
                   ((token cfg d3.ctl.1 (.startTag n attrs ns sc raw (srcOf lx.prevConsumed lx.raw) lx.prevConsumed)).1,
@@ -327,12 +371,12 @@ theorem Full_handleTag_lexer (cfg : Cfg) (hb : IdsBounded (theProgram cfg) cfg.s
                 rw [hte] at q3
                 rw [DRes.bind_err _ _ e q3]
                 have hcls := c2 e (by rw [hce, hte])
-                refine post_err _ e (residual_allowed hcls ?_)
+                refine postG_err _ e (residual_cg hcls ?_)
                 intro heq
                 subst heq
                 have hfault : d3.ctl.1.fault = none := by
                   rw [hc3]
-                  obtain ⟨g1, _⟩ := start_event_no_panic cfg hb d1.ctl.1 hJ1 ln ns ⟨input, as, sc⟩ [] [] ns sc [] ⟨0, 0⟩ 0
+                  obtain ⟨g1, _⟩ := hE.start d1.ctl.1 ln ns ⟨input, as, sc⟩ [] [] ns sc [] ⟨0, 0⟩ 0 hJ1
                   -- the start phase does not touch the fault
                   have : (startPhase d1.ctl.1 ln ns ⟨input, as, sc⟩).1.fault = d1.ctl.1.fault := by
                     unfold startPhase
@@ -341,19 +385,19 @@ theorem Full_handleTag_lexer (cfg : Cfg) (hb : IdsBounded (theProgram cfg) cfg.s
                     · exact LolHtml.Model.Chunk.R.startTag_fault _ _ _
                     · exact LolHtml.Model.Chunk.R.startTag_fault _ _ _
                     · rw [LolHtml.Model.Chunk.R.auxInfo_fault, LolHtml.Model.Chunk.R.startTag_fault]
-                  rw [this]; exact hJ1.fault
+                  rw [this]; exact (hE.fault _ hJ1)
                 unfold token at hte
                 simp only [hfault] at hte
                 exact tokStartTag_not_rBase cfg d3.ctl.1 n attrs ns sc raw _ _ (by simp [srcOf]) hte
               | none =>
                 rw [hte] at q3
                 rw [DRes.bind_ok _ _ () q3]
-                have hJ4 : J cfg (d3.produceTag (fullCtl cfg) input lx).1.ctl.1 := by
+                have hJ4 : I (d3.produceTag (fullCtl cfg) input lx).1.ctl.1 := by
                   rw [q1]
                   have := c1 (by rw [hce, hte])
                   rw [hce] at this
                   exact this
-                exact handleTag_tail _ (q2.idle hi3) hJ4
+                exact handleTag_tailG _ (q2.idle hi3) hJ4
       | endTag name h =>
         rw [ho] at hl
         simp only [TagOutline.name, TagOutline.nameHash] at hl
@@ -371,20 +415,20 @@ theorem Full_handleTag_lexer (cfg : Cfg) (hb : IdsBounded (theProgram cfg) cfg.s
         | false =>
           obtain ⟨q1, q2, q3⟩ := p1 (by rw [hf3]; exact hb1)
           rw [DRes.bind_ok _ _ () q1]
-          obtain ⟨c1, _⟩ := Full_end_no_panic cfg d1.ctl.1 hJ1 ln [] [] ⟨0, 0⟩
+          obtain ⟨c1, _⟩ := hE.end_ d1.ctl.1 ln [] [] ⟨0, 0⟩ hJ1
           have hce : ctlStep cfg d1.ctl.1 (.end_ ln (.endTag [] [] ⟨0, 0⟩)) = ((endTag d1.ctl.1 ln).1, none) := by
             simp only [ctlStep, tokIf, hb1, Bool.false_eq_true, if_false]
-          have hJ3 : J cfg (d3.produceTag (fullCtl cfg) input lx).1.ctl.1 := by
+          have hJ3 : I (d3.produceTag (fullCtl cfg) input lx).1.ctl.1 := by
             rw [q2, hc3]
-            have := (c1 (by rw [hce])).1
+            have := c1 (by rw [hce])
             rw [hce] at this
             exact this
-          exact handleTag_tail _ (q3.idle hi3) hJ3
+          exact handleTag_tailG _ (q3.idle hi3) hJ3
         | true =>
           rcases p2 (by rw [hf3]; exact hb1) with ⟨e, he, hq⟩ | ⟨n, raw, q1, q2, q3⟩
           · rw [DRes.bind_err _ _ e hq]
-            exact post_err _ e (Or.inr (Or.inr (Or.inr (Or.inr he))))
-          · obtain ⟨c1, c2⟩ := Full_end_no_panic cfg d1.ctl.1 hJ1 ln n raw (srcOf lx.prevConsumed lx.raw)
+            exact postG_err _ e (Or.inr (Or.inr (Or.inr he)))
+          · obtain ⟨c1, c2⟩ := hE.end_ d1.ctl.1 ln n raw (srcOf lx.prevConsumed lx.raw) hJ1
             have hce : ctlStep cfg d1.ctl.1 (.end_ ln (.endTag n raw (srcOf lx.prevConsumed lx.raw))) =
                 ((token cfg d3.ctl.1 (.endTag n raw (srcOf lx.prevConsumed lx.raw))).1,
                  (token cfg d3.ctl.1 (.endTag n raw (srcOf lx.prevConsumed lx.raw))).2.err) := by
@@ -395,41 +439,42 @@ theorem Full_handleTag_lexer (cfg : Cfg) (hb : IdsBounded (theProgram cfg) cfg.s
               rw [DRes.bind_err _ _ e q3]
               have hcls := c2 e (by rw [hce, hte])
               -- the only residual site of an end-tag token is the missing payload
-              exact post_err _ e (Or.inr (Or.inr (Or.inl hcls)))
+              exact postG_err _ e (Or.inr (Or.inr (Or.inl hcls)))
             | none =>
               rw [hte] at q3
               rw [DRes.bind_ok _ _ () q3]
-              have hJ4 : J cfg (d3.produceTag (fullCtl cfg) input lx).1.ctl.1 := by
+              have hJ4 : I (d3.produceTag (fullCtl cfg) input lx).1.ctl.1 := by
                 rw [q1]
-                have := (c1 (by rw [hce, hte])).1
+                have := c1 (by rw [hce, hte])
                 rw [hce] at this
                 exact this
-              exact handleTag_tail _ (q2.idle hi3) hJ4
+              exact handleTag_tailG _ (q2.idle hi3) hJ4
 
 /-! ## `Disp.handleNonTag` and `Disp.finish` in lexer mode -/
 
-/-- **Full_handleNonTag_lexer.** The same for `handle_non_tag_content` (text, comment, doctype, EOF
+/-- **handleNonTag_lexer_gen.** The same for `handle_non_tag_content` (text, comment, doctype, EOF
 lexemes): the closing chunk of an open text node unless the lexeme is text, then at most one token. -/
-theorem Full_handleNonTag_lexer (cfg : Cfg) (d : Disp (FullSt cfg)) (hi : Idle d) (hJ : J cfg d.ctl.1)
-    (input : Bytes) (lx : NonTagLexeme) : Post cfg (Disp.handleNonTag (fullCtl cfg) input lx d) := by
+theorem handleNonTag_lexer_gen (cfg : Cfg) (I : St → Prop) (S A : Err → Prop) (hE : EvInv cfg I S A)
+    (d : Disp (FullSt cfg)) (hi : Idle d) (hJ : I d.ctl.1)
+    (input : Bytes) (lx : NonTagLexeme) : PostG cfg I (CG S A) (Disp.handleNonTag (fullCtl cfg) input lx d) := by
   unfold Disp.handleNonTag
   -- after the optional flush we are in a `J` state again
   have hflush : (∃ e, (if lx.isText then ((d, .ok ()) : DRes (FullSt cfg) Unit) else d.flushPendingText (fullCtl cfg)).2 = .error e ∧
         e = .handler) ∨
       ((if lx.isText then ((d, .ok ()) : DRes (FullSt cfg) Unit) else d.flushPendingText (fullCtl cfg)).2 = .ok () ∧
         Idle (if lx.isText then ((d, .ok ()) : DRes (FullSt cfg) Unit) else d.flushPendingText (fullCtl cfg)).1 ∧
-        J cfg (if lx.isText then ((d, .ok ()) : DRes (FullSt cfg) Unit) else d.flushPendingText (fullCtl cfg)).1.ctl.1) := by
+        I (if lx.isText then ((d, .ok ()) : DRes (FullSt cfg) Unit) else d.flushPendingText (fullCtl cfg)).1.ctl.1) := by
     split
     · exact Or.inr ⟨rfl, hi, hJ⟩
     · obtain ⟨tokF, ⟨tt, p, htokF⟩, f1, _, f3, f4⟩ := flushPendingText_full d
       have hkF : (CtlEv.other tokF).WellKinded := by rw [htokF]; trivial
-      obtain ⟨o1, o2⟩ := tokIf_other_no_panic cfg d.ctl.1 hJ tokF hkF d.textPending
+      obtain ⟨o1, o2⟩ := hE.other d.ctl.1 tokF d.textPending hJ hkF
       cases h0 : (tokIf cfg d.textPending d.ctl.1 tokF).2 with
       | some e => rw [h0] at f4; exact Or.inl ⟨e, f4, o2 e h0⟩
       | none => rw [h0] at f4; exact Or.inr ⟨f4, f3.idle hi, by rw [f1]; exact o1 h0⟩
   rcases hflush with ⟨e, he, hh⟩ | ⟨hok, hi1, hJ1⟩
   · rw [DRes.bind_err _ _ e he]
-    exact post_err _ e (Or.inl hh)
+    exact postG_err _ e (Or.inl hh)
   · rw [DRes.bind_ok _ _ () hok]
     generalize (if lx.isText then ((d, .ok ()) : DRes (FullSt cfg) Unit) else d.flushPendingText (fullCtl cfg)).1 = d1 at hi1 hJ1 ⊢
     rcases produceNonTag_full d1 input lx with ⟨q1, q2, q3⟩ | ⟨e, he, hq⟩ | ⟨tok, hk, q1, q2, q3⟩
@@ -438,8 +483,8 @@ theorem Full_handleNonTag_lexer (cfg : Cfg) (d : Disp (FullSt cfg)) (hi : Idle d
       rw [hq] at he'
       simp only [Except.error.injEq] at he'
       rw [← he']
-      exact Or.inr (Or.inr (Or.inr (Or.inr he)))
-    · obtain ⟨o1, o2⟩ := tokIf_other_no_panic cfg d1.ctl.1 hJ1 tok hk true
+      exact Or.inr (Or.inr (Or.inr he))
+    · obtain ⟨o1, o2⟩ := hE.other d1.ctl.1 tok true hJ1 hk
       have hto : tokIf cfg true d1.ctl.1 tok = ((token cfg d1.ctl.1 tok).1, (token cfg d1.ctl.1 tok).2.err) := by
         simp [tokIf]
       cases hte : (token cfg d1.ctl.1 tok).2.err with
@@ -458,6 +503,54 @@ theorem Full_handleNonTag_lexer (cfg : Cfg) (d : Disp (FullSt cfg)) (hi : Idle d
         rw [hto] at this
         exact this
 
+/-- the run invariant `J` is an event invariant -/
+theorem J_evInv (cfg : Cfg) (hb : IdsBounded (theProgram cfg) cfg.sels.length) :
+    EvInv cfg (J cfg) (fun e => e = .panic rAttr ∨ e = .panic rPayload ∨ e = .panic rMatcher) (fun e => e = .panic rPayload) where
+  fault := fun _ h => h.fault
+  other := fun s tok b h hk => tokIf_other_no_panic cfg s h tok hk b
+  start := fun s ln ns info nm attrs ns' sc raw src base h => by
+    obtain ⟨c1, c2⟩ := start_event_no_panic cfg hb s h ln ns info nm attrs ns' sc raw src base
+    refine ⟨c1, fun e he => ?_⟩
+    rcases c2 e he with h | (h | h | h) | h
+    · exact Or.inl h
+    · exact Or.inr (Or.inl (Or.inl h))
+    · exact Or.inr (Or.inr h)
+    · exact Or.inr (Or.inl (Or.inr (Or.inl h)))
+    · exact Or.inr (Or.inl (Or.inr (Or.inr h)))
+  end_ := fun s ln nm raw src h => by
+    obtain ⟨c1, c2⟩ := Full_end_no_panic cfg s h ln nm raw src
+    exact ⟨fun hh => (c1 hh).1, c2⟩
+
+theorem cg_allowed {e : Err}
+    (h : CG (fun e => e = .panic rAttr ∨ e = .panic rPayload ∨ e = .panic rMatcher) (fun e => e = .panic rPayload) e) :
+    Allowed e := by
+  rcases h with h | (h | h | h) | h | h
+  · exact Or.inl h
+  · exact Or.inr (Or.inl h)
+  · exact Or.inr (Or.inr (Or.inl h))
+  · exact Or.inr (Or.inr (Or.inr (Or.inl h)))
+  · exact Or.inr (Or.inr (Or.inl h))
+  · exact Or.inr (Or.inr (Or.inr (Or.inr h)))
+
+/-- **Full_handleTag_lexer.** With the real controller, from a dispatcher state without outstanding hint
+whose controller state satisfies `J`, `handle_tag` on ANY tag lexeme either ends in such a state again or
+fails with a content-handler error, at a residual glue site (`rAttr`, `rPayload`, `rMatcher`), or at one
+of the dispatcher's own slice checks. Its controller calls are the closing chunk of an open text node and
+exactly one start- / end-tag event of `Model/FullEvents.lean`. -/
+theorem Full_handleTag_lexer (cfg : Cfg) (hb : IdsBounded (theProgram cfg) cfg.sels.length)
+    (d : Disp (FullSt cfg)) (hi : Idle d) (hJ : J cfg d.ctl.1) (input : Bytes) (lx : TagLexeme) :
+    Post cfg (Disp.handleTag (fullCtl cfg) input lx d) := by
+  obtain ⟨a, b⟩ := handleTag_lexer_gen cfg (J cfg) _ _ (J_evInv cfg hb) d hi hJ input lx
+  exact ⟨a, fun e he => cg_allowed (b e he)⟩
+
+/-- **Full_handleNonTag_lexer.** The same for `handle_non_tag_content` (text, comment, doctype, EOF
+lexemes): the closing chunk of an open text node unless the lexeme is text, then at most one token. -/
+theorem Full_handleNonTag_lexer (cfg : Cfg) (hb : IdsBounded (theProgram cfg) cfg.sels.length)
+    (d : Disp (FullSt cfg)) (hi : Idle d) (hJ : J cfg d.ctl.1)
+    (input : Bytes) (lx : NonTagLexeme) : Post cfg (Disp.handleNonTag (fullCtl cfg) input lx d) := by
+  obtain ⟨a, b⟩ := handleNonTag_lexer_gen cfg (J cfg) _ _ (J_evInv cfg hb) d hi hJ input lx
+  exact ⟨a, fun e he => cg_allowed (b e he)⟩
+
 /-- **Full_handleEnd_lexer.** `handle_end` (called by `Dispatcher::finish`) from a `J` state fails only
 with a content-handler error. -/
 theorem Full_handleEnd_lexer (cfg : Cfg) (g : FullSt cfg) (hJ : J cfg g.1) (e : Err)
@@ -472,7 +565,10 @@ def KD (cfg : Cfg) (d : Disp (FullSt cfg)) : Prop := Idle d ∧ J cfg d.ctl.1
 theorem KD_new (cfg : Cfg) (enc : Nat) : KD cfg (Disp.new (fullCtl cfg) (FullSt.init cfg) enc) :=
   ⟨⟨rfl, rfl⟩, J_init cfg⟩
 
-/-- **Full statement of the lexer-mode headline** (NOT proved). For configurations that never leave lexer
+/-- **Full statement of the lexer-mode headline.** ROUND 4 (Thm/Full5.lean): proved up to two lexeme facts —
+`Full_no_panic_lexer_allowed` (no hypothesis: only the glue sites `rAttr` / `rMatcher` remain),
+`Full_no_panic_lexer_partial` (this statement from the two named hypotheses). Items 1, 3 and the `DispOwn` /
+`rPayload` parts of item 2 below are done. Original text: For configurations that never leave lexer
 mode (a document-level text / comment / doctype handler is registered: `Full_initial_scan`, sticky flags),
 no call of the whole model returns a panic- or internal-class error.
 
